@@ -296,6 +296,17 @@ pub fn on_close(fd: i32) {
 pub type BlockFn = fn(fd: i32) -> WaitOutcome;
 static BLOCK_FN: Mutex<Option<BlockFn>> = Mutex::new(None);
 
+static SQPOLL_WAKE_TOKEN: Mutex<Option<u64>> = Mutex::new(None);
+
+/// Scheduler token to notify when an enter wakes the SQPOLL kernel thread.
+pub fn set_sqpoll_wake_token(t: Option<u64>) {
+    *SQPOLL_WAKE_TOKEN.lock().unwrap_or_else(|e| e.into_inner()) = t;
+}
+
+pub fn sqpoll_wake_token() -> Option<u64> {
+    *SQPOLL_WAKE_TOKEN.lock().unwrap_or_else(|e| e.into_inner())
+}
+
 pub fn set_block_fn(f: Option<BlockFn>) {
     *BLOCK_FN.lock().unwrap_or_else(|e| e.into_inner()) = f;
 }
